@@ -171,7 +171,10 @@ def cube_queries(prefix, kinds, cks, timeout, mem, a=16, **kw):
 def gen_queries(prefix, kinds, cks, timeout, mem=None, a=16):
     """per-generator harnesses (reached through the hook verif_add_legals)"""
     qs = []
+    two = prefix.endswith("gen2")
     for k in kinds:
+        if two and k == "king":
+            continue
         kcks = list(cks)
         if k == "pawn" and 0 in kcks:
             # the not-in-check pawn instance is the largest query: split into "no ep file" (3) and "ep file set" (4)
@@ -180,7 +183,7 @@ def gen_queries(prefix, kinds, cks, timeout, mem=None, a=16):
             if c == 2 and k != "king":
                 continue  # in double check the dispatcher calls the king generator only (c16_dispatch)
             m = mem or 3  # measured peak RSS <= 0.5 GB
-            qs.append(Query("brd::%s_%s_c%d" % (prefix, k, c), stubbing=True, rules=board_rules(a), default_unwind=2, timeout=timeout, mem_gb=m))
+            qs.append(Query("brd::%s_%s_c%d" % (prefix, k, c), stubbing=True, rules=board_rules(a, full_n=2 if two else None), default_unwind=2, timeout=timeout, mem_gb=m))
     return qs
 
 
@@ -314,6 +317,8 @@ def plan_c01(res, tier, seed, only):
     base = [Query("c16::c16_dispatch", stubbing=True, timeout=cap, mem_gb=8),
             Query("brd::c01_double_check_ref", stubbing=True, rules=board_rules(), default_unwind=2, timeout=cap, mem_gb=6)]
     qs = base + gen_queries("c01_gen", KINDS[:6], [0, 1, 2], cap) + gen_queries("c16_silent", KINDS[:6], [0, 1, 2], cap)
+    # two origins of the generator's kind in the mask: the loops' second iteration behaves like the first
+    qs += gen_queries("c01_gen2", KINDS[:5], [0, 1], cap)
     if tier == "quick":
         # public entry point (generate_moves_for itself) on three rotating cubes as a cross-check of the composition; all 21 in thorough
         pub = [("king", 0), ("pawn", 0), ("pawn", 1), ("king", 1), ("rook", 0), ("bishop", 1), ("queen", 0), ("knight", 1), ("king", 2)]
@@ -566,7 +571,7 @@ def plan_c16(res, tier, seed, only):
     qs = [Query("c16::c16_dispatch", stubbing=True, timeout=cap, mem_gb=8), Query("c16::c16_full_mask", stubbing=True, timeout=cap, mem_gb=8)]
     res.assumptions.append(GEN_NOTE)
     qs += gen_queries("c16_gen_abort", KINDS[:6], [0, 1, 2], cap) + gen_queries("c16_silent", KINDS[:6], [0, 1, 2], cap)
-    qs += gen_queries("c01_gen", KINDS[:6], [0, 1, 2], cap)
+    qs += gen_queries("c01_gen", KINDS[:6], [0, 1, 2], cap) + gen_queries("c01_gen2", KINDS[:5], [0, 1], cap)
     if tier == "quick":
         pub = KINDS[:6]
         qs += cube_queries("c16_abort", [pub[seed % 6], pub[(seed + 3) % 6]], [0, 1], cap, 5)
